@@ -486,16 +486,29 @@ def routes(ctx):
                     key='assoc-sorted', msg='%s writes the associations in the order of the model list, not sorted by their number' % name)
     # serialize() dispatch
     sz = repo.func(P + 'serialize')
+    RP = param_names(sz, skip_self=False)[0]
+
+    def isinst(e, s, tr):
+        if src(e['_X']) != RP:
+            return None
+        ts = e['_T'].elts if isinstance(e['_T'], ast.Tuple) else [e['_T']]
+        return any(src(t) in s['is'] for t in ts)
+
+    def issub(e, s, tr):
+        if src(e['_X']) != RP:
+            return None
+        return src(e['_T']) in s['sub']
+    di = absint.Interp(sz, [('isinstance(_X, _T)', isinst), ('issubclass(_X, _T)', issub)])
+    di.pure_calls = {'serialize_database', 'serialize_class', 'serialize_association', 'serialize_instance'}
+    kinds_ = {'a metamodel': ({'xtuml.MetaModel'}, set(), 'serialize_database(%s)' % RP),
+              'a class': ({'type'}, {'xtuml.Class'}, 'serialize_class(%s)' % RP),
+              'an association': ({'xtuml.Association'}, set(), 'serialize_association(%s)' % RP),
+              'an instance': ({'xtuml.Class'}, set(), 'serialize_instance(%s)' % RP)}
     disp = {}
-    for n in ast.walk(sz):
-        if isinstance(n, ast.If):
-            rets = [x for x in n.body if isinstance(x, ast.Return)]
-            if rets:
-                disp[src(n.test)] = src(rets[0].value)
-    want_d = {'isinstance(resource, xtuml.MetaModel)': 'serialize_database(resource)',
-              'isinstance(resource, type) and issubclass(resource, xtuml.Class)': 'serialize_class(resource)',
-              'isinstance(resource, xtuml.Association)': 'serialize_association(resource)',
-              'isinstance(resource, xtuml.Class)': 'serialize_instance(resource)'}
+    for what, (is_, sub_, want_) in kinds_.items():
+        out, tr = di.run({'is': is_, 'sub': sub_})
+        disp[what] = src(out.value) if (out.kind == 'return' and out.value is not None) else None
+    want_d = dict((k, v[2]) for k, v in kinds_.items())
     r.check(disp == want_d, 'serialize() dispatches metamodel / class / association / instance to their serializers', sz, construct=P + 'serialize',
             key='dispatch', msg='serialize() dispatch table is %s' % disp)
     # reader side of unique indices
